@@ -71,6 +71,10 @@ def replay(rec, case):
     i = case["input"]
     if "bban" in i:
         check_rebuild(rec, i["cc"], i["bban"])
+    elif i["how"] == "from_components+ncd":
+        from ..lib import BBAN
+        a = i["args"]
+        check_built(rec, i["cc"], i["how"], a, lambda: IBAN.from_bban(i["cc"], BBAN.from_components(i["cc"], **a)))
     elif i["how"] == "generate":
         a = i["args"]
         check_built(rec, i["cc"], "generate", a, lambda: IBAN.generate(i["cc"], bank_code=a["bank_code"],
@@ -110,6 +114,25 @@ def shard_field(arg):
         letter = any(c.isalpha() for v in vals.values() for c in v)
         rec.case(f"generate-{res}", (cc, tuple(vals.values())) if (short or letter) else None,
                  {"cc": cc, **vals, "outcome": res} if k < 2 else None)
+    # building through BBAN.from_components with a (wrong) value for the national check field supplied as well: the field is
+    # "separately computed", so whatever the library returns must still be nationally valid
+    from ..lib import BBAN
+    o = oracle()
+    fld = o.positions(cc).get("national_checksum_digits")
+    if fld:
+        width = fld[1] - fld[0]
+        cls_ = gen().classes(cc)[fld[0]]
+        for k in range(40 if tier == "quick" else 1500):
+            vals = {}
+            for name in ("bank_code", "branch_code", "account_code"):
+                a, e, cl = fi[name]
+                if e - a:
+                    vals[name] = conforming(rng, cl, e - a)
+            wrong = "".join(rng.choice("0123456789" if cls_ == "n" else "ABCDEFGHIJKLMNOPQRSTUVWXYZ") for _ in range(width))
+            args = {**vals, "national_checksum_digits": wrong if k % 4 else wrong[:-1] or "0"}
+            res = check_built(rec, cc, "from_components+ncd", args,
+                              lambda: IBAN.from_bban(cc, BBAN.from_components(cc, **args)))
+            rec.case(f"from_components-ncd-{res}", (cc, tuple(args.values())))
     if ok == 0:
         raise HarnessError(f"{cc}: generate never succeeded; (a) would be vacuous")
     rec.classes[f"generate-success-{cc}"] = ok
@@ -163,5 +186,5 @@ def run(ctx):
     ctx.pmap(shard_rebuild, [(cc, ctx.seed, ctx.tier) for cc in with_pos])
     ctx.extra["generate_success"] = {cc: ctx.rec.classes.get(f"generate-success-{cc}", 0) for cc in onat.FIELD}
     ctx.extra["random_success"] = {cc: ctx.rec.classes.get(f"random-success-{cc}", 0) for cc in onat.FIELD}
-    ctx.require_classes("generate-ok", "random-ok", "rebuild-rich", "rebuild",
+    ctx.require_classes("from_components-ncd-ok", "generate-ok", "random-ok", "rebuild-rich", "rebuild",
                         *[f"random-success-{cc}" for cc in onat.FIELD])
